@@ -987,7 +987,7 @@ func (e *Env) lookup(fr *Frame, x *ssa.Lookup, st *State) Value {
 func (e *Env) makeSlice(fr *Frame, x *ssa.MakeSlice, st *State) Value {
 	ln := e.get(fr, x.Len, st).(*Sc).T
 	cp := e.get(fr, x.Cap, st).(*Sc).T
-	e.panicCheck(fr, "makeslice", st, mkAnd(sx("<=", "0", ln), sx("<=", ln, cp), sx("<=", cp, "4611686018427387904")))
+	e.panicCheck(fr, "makeslice", st, mkAnd(sx("<=", "0", ln), sx("<=", ln, cp), sx("<=", cp, "281474976710656")))
 	r := e.alloc(st)
 	et := x.Type().Underlying().(*types.Slice).Elem()
 	e.initBacking(st, r, et)
